@@ -416,14 +416,38 @@ class GroupWorld(SeqWorld):
 # ---------------------------------------------------------------------------
 # ConsumerGroup: commits
 # ---------------------------------------------------------------------------
+class _ByName:
+    """Sharding strategy (public constructor parameter of EventLog): key 'p<k>' goes to partition k."""
+
+    def get_shard(self, key, num_shards):
+        return int(key[1:]) % num_shards
+
+
+_NONOWNER = {}
+
+
+def nonowner_commit_accepted():
+    """Calibration probe through the public API, once per process: does the library under test apply a commit
+    for a partition the committing member does not currently own (HEAD does: the Commit handler has no ownership
+    check and commit() has no failure channel)?  If it does, such late commits count towards the value below
+    which that member's committed offset must never fall; if a library refuses them, only commits issued by the
+    owner count."""
+    if "v" not in _NONOWNER:
+        w = CommitWorld({"P": 1, "strategy": "Range", "probe": True}, Forced(), forced=["jB", "cB2", "lA"], max_len=3)
+        w.run()
+        _NONOWNER["v"] = any(m == "B" and c == 2 for snap in w.receipts[-1:] for (m, _p, c) in snap)
+    return _NONOWNER["v"]
+
+
 class CommitWorld(SeqWorld):
     component = "ConsumerGroup"
     settle = 2
+    NREC = 3  # records per partition appended before the first operation
 
     def build(self):
         S = _streaming()
         cfg = self.cfg
-        self.log = S.EventLog("log", num_partitions=cfg["P"])
+        self.log = S.EventLog("log", num_partitions=cfg["P"], sharding_strategy=_ByName(), append_latency=0.125)
         self.group = S.ConsumerGroup("g", self.log, assignment_strategy=_strategy(cfg["strategy"]),
                                      rebalance_delay=0.25, poll_latency=0.125)
         self.start_tick = 1
@@ -431,23 +455,36 @@ class CommitWorld(SeqWorld):
         self.maxcommit = {}
         self.stale = set()
         self.cause = "start"
+        self.commits = []  # (issue time, member, pid, offset, member owned pid at issue time)
+        self.owned = {}  # (member, pid) -> 'own' | 'lost' | 'regained'
+        self.polled = []
 
     def entities(self):
         return [self.log, self.group]
 
     def initial_events(self):
-        return [Event(time=Instant(0), event_type="do", target=self.worker, context={"metadata": {"op": ("j", "A")}})]
+        evs = [Event(time=Instant(0), event_type="do", target=self.worker, context={"metadata": {"op": ("j", "A")}})]
+        for p in range(self.cfg["P"]):
+            for k in range(self.NREC):
+                evs.append(Event(time=Instant(k), event_type="do", target=self.worker,
+                                 context={"metadata": {"op": ("app", f"p{p}")}}))
+        return evs
+
+    def alphabet(self):
+        return self.cfg.get("alpha") or ["cA1", "cA2", "cA3", "cB1", "cB3", "jB", "lB", "lA", "jA", "pA"]
 
     def applicable(self, i):
         if i >= self.start_tick + self.max_len:
             return ["end"]
-        opts = ["cA0", "cA1", "cA2", "cA3", "cB1", "cB3", "jB", "lB", "lA", "jA"]
+        opts = list(self.alphabet())
+        if self.cfg.get("probe"):
+            opts.append("cB2")
         if i > self.start_tick:
             opts.append("end")
         return opts
 
     def apply(self, op, script, i):
-        self.trace(f"t={i}s  op {op}")
+        self.trace(f"t={i}s  op {op}   (assignments {self.group.assignments})")
         self.cause = "commit" if op[0] == "c" else "rebalance"
         if op[0] == "c":
             m, off = op[1], int(op[2])
@@ -455,7 +492,14 @@ class CommitWorld(SeqWorld):
                 self.flags.add("stale-commit")
                 self.stale.add(m)
             self.maxcommit[m] = max(off, self.maxcommit.get(m, -1))
+            mine = self.group.assignments.get(m, [])
+            for p in range(self.cfg["P"]):
+                self.commits.append((script.now.nanoseconds, m, p, off, p in mine))
+                if p not in mine:
+                    self.flags.add("commit-for-partition-not-owned")
             return [self.spawn(script, ("c", m, off))]
+        if op[0] == "p":
+            return [self.spawn(script, ("p", op[1], script.now.nanoseconds))]
         return [self.spawn(script, (op[0], op[1]))]
 
     def do(self, worker, op):
@@ -464,32 +508,92 @@ class CommitWorld(SeqWorld):
             yield from g.join(op[1], worker)
         elif op[0] == "l":
             yield from g.leave(op[1])
+        elif op[0] == "app":
+            yield from self.log.append(op[1], "v")
+            return None
+        elif op[0] == "p":
+            _, m, issued = op
+            recs = yield from g.poll(m, 100)
+            got = [(r.partition, r.offset) for r in recs]
+            self.polled.append((worker.now.nanoseconds, m, tuple(got)))
+            self.trace(f"t={worker.now.nanoseconds / TICK:g}s  poll({m}) -> (partition, offset) {got}")
+            self.check_poll(m, issued, got)
         else:
             _, m, off = op
             yield from g.commit(m, {p: off for p in range(self.cfg["P"])})
         self.transitions += 1
         return None
 
+    def floor(self, m, pid, before):
+        """Highest offset member m has committed for pid in commits issued before ``before`` that count."""
+        late_ok = None
+        best = None
+        for (t, cm, cp, off, owned) in self.commits:
+            if cm != m or cp != pid or t >= before:
+                continue
+            if not owned:
+                if late_ok is None:
+                    late_ok = nonowner_commit_accepted()
+                if not late_ok:
+                    continue
+            if best is None or off > best:
+                best = off
+        return best
+
+    def check_poll(self, m, issued, got):
+        if self.viol is not None or self.cfg.get("probe"):
+            return
+        for (p, o) in got:
+            fl = self.floor(m, p, issued)
+            if fl is not None and o < fl:
+                self.fail(f"poll/redelivered-below-committed/{self.owned.get((m, p), 'own')}",
+                          f"member {m} committed offset {fl} for partition {p} but poll() handed it offset {o} "
+                          f"again: {got}; ops {self.ops}")
+                return
+
     def observe(self, i):
         if self.viol is not None:
             return
         g = self.group
+        now = i * TICK if i is not None else 10 ** 15
         snap = []
+        asg = g.assignments
+        for (m, pid), stt in list(self.owned.items()):
+            if stt in ("own", "regained") and pid not in asg.get(m, []):
+                self.owned[(m, pid)] = "lost"
         for m in g.consumers:
             lag = g.consumer_lag(m)
             for pid, lg in sorted(lag.items()):
                 committed = self.log.high_watermark(pid) - lg
                 snap.append((m, pid, committed))
                 key = (m, pid)
+                if self.owned.get(key) == "lost":
+                    self.owned[key] = "regained"
+                    self.flags.add("ownership-round-trip")
+                self.owned.setdefault(key, "own")
+                if self.cfg.get("probe"):
+                    continue
                 if key in self.last and committed < self.last[key]:
                     shape = "stale-commit" if m in self.stale else "no-stale-commit"
+                    if self.owned[key] == "regained":
+                        shape = "after-ownership-round-trip"
                     self.fail(f"committed-offset/moved-backwards/{shape}",
                               f"committed offset of member {m} for partition {pid} went from {self.last[key]} to "
                               f"{committed} (consumer_lag); ops {self.ops}")
                     return
+                fl = self.floor(m, pid, now)
+                if fl is not None and committed < fl:
+                    shape = "after-ownership-round-trip" if self.owned[key] == "regained" else "below-own-commit"
+                    self.fail(f"committed-offset/moved-backwards/{shape}",
+                              f"member {m} committed offset {fl} for partition {pid} (commits {[c for c in self.commits if c[1] == m and c[2] == pid]}) "
+                              f"but its committed offset is now {committed} (consumer_lag); ops {self.ops}")
+                    return
                 self.last[key] = committed
         self.receipts.append(tuple(snap))
         self.trace(f"     committed (member, partition, offset): {snap}")
+
+    def outcome(self):
+        return digest((self.receipts, self.polled))
 
 
 # ---------------------------------------------------------------------------
@@ -792,11 +896,14 @@ def jobs(name, tier):
                   "rebalance_delay_s": [0.25, 1.5]}
     elif name == "commit":
         n = 4 if quick else 5
-        alpha = ["cA0", "cA1", "cA2", "cA3", "cB1", "cB3", "jB", "lB", "lA", "jA"]
+        alpha = ["cA1", "cA2", "cA3", "cB1", "cB3", "jB", "lB", "lA", "jA", "pA"] + ([] if quick else ["pB"])
         for P in (1, 2):
             for strat in ("Range", "Sticky"):
-                out += _prefix_jobs("commit", {"P": P, "strategy": strat}, alpha, 1, n)
-        bounds = {"max_ops": n, "ops": alpha + ["end"], "partitions": [1, 2], "strategies": ["Range", "Sticky"]}
+                out += _prefix_jobs("commit", {"P": P, "strategy": strat, "alpha": alpha}, alpha, 1, n)
+        bounds = {"max_ops": n, "ops": alpha + ["end"], "partitions": [1, 2], "strategies": ["Range", "Sticky"],
+                  "records_per_partition": CommitWorld.NREC,
+                  "ops_meaning": "c<M><o>: member M commits offset o for every partition (also partitions it does "
+                                 "not own: late commit); p<M>: member M polls; j/l: join / leave"}
     elif name == "outbox":
         n = 6
         alpha = ["w", "ww", "wait"]
